@@ -803,6 +803,10 @@ func chooseAttachment(state *attachmentHandlingState) (*decorator.Attachment, er
 }
 
 func extractDIDCommMsgBytes(a *decorator.Attachment) ([]byte, error) {
+	if a == nil {
+		return nil, errors.New("extractDIDCommMsgBytes: the attachment is null")
+	}
+
 	bytes, err := a.Data.Fetch()
 	if err != nil {
 		return nil, fmt.Errorf("extractDIDCommMsgBytes: %w", err)
